@@ -3,7 +3,7 @@ specs/Failsafe.tla (every listener call is an event appended by the action that 
 Every listener of every builder is registered (in 5 registration variants) and the ordered log compared."""
 import vlib, seq
 
-NAMES = ["rp", "rpA", "rpL", "rpH", "cbA", "cbC", "rl2", "bh1", "fbR", "fbE", "cK", "cIf", "to", "hg", "hgR"]
+NAMES = ["rp", "rpA", "rpL", "rpH", "cbA", "cbC", "rl2", "bh1", "fbR", "fbE", "fbHE", "fbRR", "cK", "cIf", "to", "hg", "hgR"]
 
 
 def accept(m):
